@@ -201,7 +201,7 @@ class Importer:
             >>> importer.import_string(content)
             >>> document = importer.import_string(content)
         """
-        lines = text.splitlines()
+        lines = io.StringIO(text, newline='')  # same line splitting as import_file
         reader = csv.reader(lines, delimiter='\t', quoting=csv.QUOTE_NONE)
         return self.run(reader)
 
